@@ -541,6 +541,10 @@ public:
             o["type"] = typeStr(ce->getType(), ctx);
             o["rec"] = recOfType(ce->getType());
             o["ctor"] = qualName(ce->getConstructor());
+            {
+                std::string fq = maybeEnqueueFunctor(ce->getType());
+                if (!fq.empty()) o["functor_call"] = fq;
+            }
             json::Array a;
             for (auto const* arg : ce->arguments()) a.push_back(tree(arg, depth + 1));
             o["args"] = std::move(a);
@@ -553,6 +557,10 @@ public:
             o["type"] = typeStr(ce->getTypeAsWritten(), ctx);
             o["rec"] = recOfType(ce->getTypeAsWritten());
             o["dep"] = true;
+            {
+                std::string fq = maybeEnqueueFunctor(ce->getTypeAsWritten());
+                if (!fq.empty()) o["functor_call"] = fq;
+            }
             json::Array a;
             for (auto const* arg : ce->arguments()) a.push_back(tree(arg, depth + 1));
             o["args"] = std::move(a);
@@ -565,6 +573,10 @@ public:
             o["type"] = typeStr(il->getType(), ctx);
             o["rec"] = recOfType(il->getType());
             o["list"] = true;
+            {
+                std::string fq = maybeEnqueueFunctor(il->getType());
+                if (!fq.empty()) o["functor_call"] = fq;
+            }
             json::Array a;
             for (auto const* arg : il->inits()) a.push_back(tree(arg, depth + 1));
             o["args"] = std::move(a);
@@ -929,6 +941,31 @@ public:
 
     // A callee that does not exist in the reference tree (a helper introduced by a later change) is extracted
     // together with its caller, so that the rule engine can inline it.
+    // A function object of a class that does not exist in the reference tree (a lambda rewritten as a named functor):
+    // its call operator is extracted with the function that constructs the object, like the body of a lambda.
+    std::string maybeEnqueueFunctor(QualType t)
+    {
+        if (g_opt.known.empty()) return "";
+        auto const* rd = t.getNonReferenceType()->getAsCXXRecordDecl();
+        if (!rd || rd->isLambda() || !rd->hasDefinition()) return "";
+        if (!inRoots(rd->getLocation())) return "";
+        for (auto const* m : rd->methods())
+        {
+            if (m->getOverloadedOperator() != OO_Call) continue;
+            FunctionDecl const* def = nullptr;
+            if (!m->hasBody(def) || !def) continue;
+            std::string qn = qualName(def);
+            if (g_opt.known.count(qn)) return "";
+            if (!seen.count(def))
+            {
+                closureFns.insert(def);
+                enqueue(def, -1, qn);
+            }
+            return qn;
+        }
+        return "";
+    }
+
     void maybeEnqueueNewHelper(FunctionDecl const* fd)
     {
         if (g_opt.known.empty() || !fd) return;
